@@ -96,6 +96,8 @@ def expand_deep(spec):
         else:  # ladder: every command is shared by its two successors
             node["A"] = j - 1
             node["L"] = [max(0, j - 2)]
+        if spec.get("meta"):
+            node["meta"] = spec["meta"]
         nodes.append(node)
     order = {"forward": list(range(n)), "reversed": list(range(n))[::-1],
              "interleaved": list(range(0, n, 2)) + list(range(1, n, 2))}[spec["order"]]
@@ -125,6 +127,10 @@ def source_text(nodes, order):
             args.append("L = [%s]" % ", ".join(name(c) for c in n["L"]))
         if n.get("N") is not None:
             args.append("N = [%s]" % ", ".join("[%s]" % ", ".join(name(c) for c in inner) for inner in n["N"]))
+        if n.get("meta") == "first":
+            args.insert(0, "Metadata = [Note: described]")  # descriptive arguments may stand anywhere among the others
+        elif n.get("meta") == "last":
+            args.append("Metadata = [Note: described]")
         lines.append("%s = %s(%s)" % (name(i), "Mute" if n.get("mute") else "Node", ", ".join(args)))
     return "\n".join(lines)
 
@@ -194,6 +200,10 @@ def build(case):
             args["L"] = [ref(c) for c in n["L"]]
         if n.get("N") is not None:
             args["N"] = [[ref(c) for c in inner] for inner in n["N"]]
+        if n.get("meta") == "first":
+            args = dict([("Metadata", {"Note": "described"})] + list(args.items()))
+        elif n.get("meta") == "last":
+            args["Metadata"] = {"Note": "described"}
         prog.add_command(mute_cls if n.get("mute") else node_cls, name(i), args)
     return prog
 
@@ -410,6 +420,10 @@ def deep_cases(ctx):
                 for build, steps in (("source", ["run", ["read", n - 1], "run"]), ("api", [["read", 12], "run", ["read_twice", n - 2], "run"]),
                                      ("source", ["run", ["extend", [{"A": n - 1}, {"L": [n, 3]}]], "run", ["read", n + 1]])):
                     yield {"deep": {"n": n, "style": style, "order": order}, "build": build, "steps": steps}
+                if style in ("chain", "list_chain"):
+                    for meta in ("first", "last"):
+                        yield {"deep": {"n": n, "style": style, "order": order, "meta": meta}, "build": "source" if meta == "first" else "api",
+                               "steps": ["run", ["read", n - 1]]}
 
 
 @st.composite
@@ -433,6 +447,8 @@ def dag_cases(draw):
             node["N"] = draw(st.lists(st.lists(pick, max_size=3), max_size=3))
         if draw(st.integers(0, 5)) == 0:
             node["mute"] = True
+        if draw(st.integers(0, 3)) == 0:
+            node["meta"] = draw(st.sampled_from(["first", "last"]))
         nodes.append(node)
     typed = draw(st.integers(0, 2)) == 0
     if typed:
